@@ -15,11 +15,11 @@ RULE = ("history = sequence of abstract statements (any read set x at-most-one w
 
 def script_cases(tier, rnd):
     """random scripts of 4-8 statements rendered to real SQL in several surface forms, run end to end (every prefix)."""
-    n = 25 if tier == "quick" else 400
+    n = 80 if tier == "quick" else 400
     T = ["ta", "tb", "tc", "td"]
     cases = []
     for i in range(n):
-        dialect = rnd.choice(["ansi", "mysql", "ansi", "non-validating"])
+        dialect = rnd.choice(["ansi", "mysql", "ansi", "non-validating", "postgres"])
         stmts = []
         for _ in range(rnd.randint(4, 7)):
             k = rnd.random()
@@ -32,6 +32,8 @@ def script_cases(tier, rnd):
                 stmts.append(f"create table {W} as select {R[0]}.c1 from {R[0]}" + (f" where {R[0]}.k in (select k from {R[1]})" if len(R) > 1 else ""))
             elif k < 0.52:
                 stmts.append("select * from " + ", ".join(R))
+            elif k < 0.56 and dialect in ("ansi", "postgres"):
+                stmts.append(f"select {R[0]}.c1 into {W} from {R[0]}")
             elif k < 0.60:
                 stmts.append(f"insert into {W} values (1)")
             elif k < 0.68:
@@ -46,12 +48,20 @@ def script_cases(tier, rnd):
                 stmts.append(f"rename table {a} to {b}, {c} to {d}")
         for k in range(1, len(stmts) + 1):
             cases.append({"sql": ";\n".join(stmts[:k]), "dialect": dialect, "script": i, "prefix": k, "n": len(stmts)})
+        # every statement of the script also on its own: the facts the model is fed must be the statement's, whatever preceded it
+        for k, s1 in enumerate(stmts):
+            cases.append({"sql": s1, "dialect": dialect, "script": ("alone", i, k), "prefix": 1, "n": 1, "alone_of": (i, k)})
     return cases
 
 
 def judge_scripts(run_, cases, recs):
     by = {}
+    alone = {}
     for c, (st, r) in zip(cases, recs):
+        if c.get("alone_of") is not None:
+            if st == "ok" and r["outcome"] == "ok" and len(r["per_statement"]) == 1:
+                alone[tuple(c["alone_of"])] = r["per_statement"][0]["facts"]
+            continue
         by.setdefault(c["script"], []).append((c, st, r))
     for sid, items in by.items():
         items.sort(key=lambda x: x[0]["prefix"])
@@ -75,6 +85,14 @@ def judge_scripts(run_, cases, recs):
                 ok = False
                 break
             f = ps[-1]["facts"]
+            fa = alone.get((sid, c["prefix"] - 1))
+            if fa is not None:
+                run_.observe("statement_facts_compared_with_the_statement_alone")
+                if any(sorted(map(str, f[k2])) != sorted(map(str, fa[k2])) for k2 in ("read", "write", "drop", "rename")):
+                    run_.judge(common.brief(c), "statement_facts_depend_on_preceding_statements",
+                               {"in_script": {k2: f[k2] for k2 in ("read", "write", "drop", "rename")}, "alone": {k2: fa[k2] for k2 in ("read", "write", "drop", "rename")}}, kf_id=None)
+                    ok = False
+                    break
             fact = {"read": frozenset(f["read"]), "write": frozenset(f["write"]), "drop": tuple(f["drop"]), "rename": tuple(tuple(p) for p in f["rename"])}
             succ = set()
             for s in states:
@@ -109,7 +127,7 @@ def run(tier):
                 jobs.append({"parser": parser, "maxlen": 3, "first": [shard], "want_facts": shard == 0})
             for shard in range(NCPU):
                 jobs.append({"parser": parser, "sample": {"n": 3000, "len": 4, "seed": common.env.seed() * 100 + shard}})
-    for k in ("histories_checked", "prefix_observations", "script_prefixes_checked"):
+    for k in ("histories_checked", "prefix_observations", "script_prefixes_checked", "statement_facts_compared_with_the_statement_alone"):
         run_.need(k)
     tot = {"histories": 0, "prefixes": 0, "underspecified_steps": 0, "with_drop_or_rename": 0, "final_states": 0}
     facts = None
